@@ -112,11 +112,19 @@ class OpAddNe(OpAdd):
         target = self.path.parts[-1]
         if isinstance(parent, MutableSequence):
             if obj is UNDEFINED:
-                parent.append(copy.deepcopy(self.value))
+                if target == "-":
+                    parent.append(copy.deepcopy(self.value))
+                else:
+                    raise JSONPatchError("index out of range")
             else:
                 parent.insert(int(target), copy.deepcopy(self.value))
-        elif isinstance(parent, MutableMapping) and target not in parent:
-            parent[target] = copy.deepcopy(self.value)
+        elif isinstance(parent, MutableMapping):
+            if target not in parent:
+                parent[target] = copy.deepcopy(self.value)
+        else:
+            raise JSONPatchError(
+                f"unexpected operation on {parent.__class__.__name__!r}"
+            )
         return data
 
 
